@@ -166,9 +166,9 @@ func opaqueKind(t types.Type) string {
 		if o.Name() == "Time" {
 			return "time.Time"
 		}
-	case "github.com/cosmos/cosmos-sdk/types":
-		if o.Name() == "Context" {
-			return "sdk.Context"
+	case "reflect":
+		if o.Name() == "Value" {
+			return "reflect.Value"
 		}
 	case "sync":
 		switch o.Name() {
@@ -191,6 +191,8 @@ func zeroOpaque(kind string) value {
 		return ctxVal{}
 	case "sync":
 		return structure{}
+	case "reflect.Value":
+		return reflVal{}
 	}
 	panic("zeroOpaque " + kind)
 }
